@@ -506,6 +506,15 @@ static int32_t pstm_mul_comba16(const pstm_int *A, const pstm_int *B, pstm_int *
     MULADD(at[15], at[31]);
     COMBA_STORE(C->dp[30]);
     COMBA_STORE2(C->dp[31]);
+    /* clear digits of the previous value of C above the result */
+    {
+        uint16_t x;
+
+        for (x = 32; x < C->used; x++)
+        {
+            C->dp[x] = 0;
+        }
+    }
     C->used = 32;
     C->sign = A->sign ^ B->sign;
     pstm_clamp(C);
@@ -808,6 +817,15 @@ static int32_t pstm_mul_comba32(const pstm_int *A, const pstm_int *B, pstm_int *
     MULADD(at[31], at[63]);
     COMBA_STORE(C->dp[62]);
     COMBA_STORE2(C->dp[63]);
+    /* clear digits of the previous value of C above the result */
+    {
+        uint16_t x;
+
+        for (x = 64; x < C->used; x++)
+        {
+            C->dp[x] = 0;
+        }
+    }
     C->used = 64;
     C->sign = A->sign ^ B->sign;
     pstm_clamp(C);
